@@ -108,9 +108,12 @@ type c05Tx struct {
 type c05Case struct {
 	// WafEngine: the WAF-level SecRuleEngine ("" = On). On a DetectionOnly WAF a predecessor can switch itself
 	// to On by ctl and leave enforcing state (allow, interruption) behind.
-	WafEngine string  `json:"waf_engine,omitempty"`
-	Pred      []c05Tx `json:"predecessors"`
-	Probe     c05Tx   `json:"probe"`
+	WafEngine string `json:"waf_engine,omitempty"`
+	// AuditRelevantOnly: SecAuditEngine RelevantOnly without a status pattern (a record is written iff a fired
+	// rule of THIS transaction asked for auditing)
+	AuditRelevantOnly bool    `json:"audit_relevant_only,omitempty"`
+	Pred              []c05Tx `json:"predecessors"`
+	Probe             c05Tx   `json:"probe"`
 }
 
 type c05Outcome struct {
@@ -258,7 +261,13 @@ func c05Run(waf coraza.WAF, t *c05Tx, closeIt bool) (*c05Outcome, types.Transact
 		if stop() {
 			return
 		}
-		tx.AddResponseHeader("Content-Type", "text/plain")
+		// every third transaction answers with a type that is not in SecResponseBodyMimeType: its body is inspected
+		// only if THIS transaction forced it (ctl:forceResponseBodyVariable)
+		if (len(t.RespBody)+len(t.Steer))%3 == 2 {
+			tx.AddResponseHeader("Content-Type", "application/octet-stream")
+		} else {
+			tx.AddResponseHeader("Content-Type", "text/plain")
+		}
 		if t.RespHeader {
 			tx.AddResponseHeader("X-R", "1")
 		}
@@ -417,6 +426,10 @@ func c05Judge(w *fw.W, c *c05Case) {
 		conf = strings.Replace(conf, "SecRuleEngine On", "SecRuleEngine "+c.WafEngine, 1)
 		w.Count("cases_on_waf_"+c.WafEngine, 1)
 	}
+	if c.AuditRelevantOnly {
+		conf = strings.Replace(conf, "SecAuditEngine On", "SecAuditEngine RelevantOnly", 1)
+		w.Count("cases_with_audit_relevant_only", 1)
+	}
 	used, err := sl.BuildText(conf)
 	if err != nil {
 		w.Count("build_errors", 1)
@@ -542,6 +555,7 @@ func init() {
 					c.Pred = append(c.Pred, c05GenTx(w.Rng, c05Steers[(i+k*7)%len(c05Steers)], false))
 				}
 				c.Probe = c05GenTx(w.Rng, "", true)
+				c.AuditRelevantOnly = i%3 == 1
 				if i%5 == 4 {
 					// a DetectionOnly WAF whose predecessors mostly switch themselves to On
 					c.WafEngine = "DetectionOnly"
